@@ -63,6 +63,64 @@ def is_min_of_recvmax(t):
     return has_rm and has_cap
 
 
+def _table_capacity(f, field):
+    import re as _re
+    for fl in f.adts.get(OUTBOUND, {}).get("variants", [{}])[0].get("fields", []):
+        if fl["name"] == field:
+            m = _re.search(r"; ([A-Za-z_0-9:]+)\]", fl["ty"])
+            if not m:
+                return None
+            if m.group(1).isdigit():
+                return int(m.group(1))
+            for k, v in f.consts.items():
+                if k == m.group(1) or k.endswith("::" + m.group(1)):
+                    return v.get("value")
+    return None
+
+
+def clause_capacity_within_tables(R, key):
+    """the local window (`max_inflight`) fits BOTH tables an exchange passes through: a QoS 2 publish needs a retained
+    slot until PUBREC and a release slot until PUBCOMP, so a window above either capacity lets the client accept a
+    publish whose PUBREC can no longer be followed by a PUBREL (the exchange is dropped)"""
+    from .. import absint
+    f = R.f
+    mi = roles.method(f, OUTBOUND, "max_inflight")
+    v = absint.Interp(mi, lambda p_: False).run((0, 0))
+    caps = [_table_capacity(f, "retained"), _table_capacity(f, "pending_release")]
+    ok = v is not None and v is not absint.TOP and v[0] == v[1] and all(c is not None for c in caps) and 1 <= v[1] <= min(caps)
+    R.ob(key, ok,
+         "max_inflight() is a constant no larger than the capacity of the retained table and of the release table "
+         "(value %s, capacities %s)" % (v if v is not None and v is not absint.TOP else "not a computable constant", caps), where=mi.span)
+
+
+def clause_inflight_read_after_reset(R, key):
+    """the in-flight count subtracted from the window is read *after* the fresh-session reset: a count taken before the
+    reset charges the new session for publishes that were just discarded (a full window lost with the old session leaves
+    the fresh one unable to publish at QoS 1/2)"""
+    f = R.f
+    call, hb, hcode = roles.handshake(f)
+    rst = outq.session_reset(f)
+    rcalls = [c.bb for c in outq.calls_to(f, hcode, rst)]
+    qs = [x for x in quota_stores(f, "send_quota") if x[0].name == hcode.name]
+    infl = [c for c in hcode.calls.values() if c.bb in hcode.reachable and any(
+        {(OUTBOUND, "retained"), (OUTBOUND, "pending_release")} <= set(f.fields_touched(t)) and f.bodies[t].fn_name != rst.fn_name
+        and not outq.calls_to(f, f.bodies[t], rst) and t != rst.name and "clear" not in f.bodies[t].fn_name
+        for t in f.call_targets(c) if t in f.bodies)]
+    # only the counting calls whose result reaches the stored quota
+    used = [c for c in infl if qs and any(isinstance(x, tuple) and x[0] == "call" and x[1] == c.bb for x in walk(qs[0][2]))]
+    ok = bool(used) and bool(rcalls) and len(qs) == 1
+    if ok:
+        for c in used:
+            # no path runs the reset after the count was taken and still reaches the store
+            after = hcode.reach([c.target] if c.target is not None else [], include_start=True)
+            for rb in rcalls:
+                if rb in after and qs[0][1] in hcode.reach([rb]):
+                    ok = False
+    R.ob(key, ok,
+         "the publishes-in-flight count that enters the stored quota is taken after the session reset, never before it",
+         where=qs[0][3] if qs else hb.span)
+
+
 def rule_init(R):
     f = R.f
     call, hb, hcode = roles.handshake(f)
@@ -117,6 +175,8 @@ def rule_init(R):
         R.ob("resume/window-minus-inflight", okw,
              "the quota stored at (re)connect is the window stored beside it minus the publishes still in flight "
              "(quota + in-flight = min(Receive Maximum, capacity)); found %s" % found, where=qs[0][3])
+    clause_capacity_within_tables(R, "init/capacity-within-tables")
+    clause_inflight_read_after_reset(R, "resume/inflight-read-after-reset")
     # Receive Maximum 0 is rejected
     ok0 = False
     for cb in [hcode] + list(f.children(hcode)):
